@@ -21,7 +21,7 @@ def universe():
         'f0.0': 0.0, 'f1.0': 1.0, 'f2.5': 2.5, 'f-1.5': -1.5,
         'nan_a': float('nan'), 'nan_b': float('nan'), 'np_nan': np.float64('nan'),
         'inf': float('inf'), '-inf': float('-inf'),
-        's_': '', 's_a': 'a', 's_b': 'b', 's_x': 'x',
+        's_': '', 's_a': 'a', 's_b': 'b', 's_x': 'x', 's_aa': 'aa', 's_10': '10', 's_9': '9',      # strings of different lengths: 'b' > 'aa', '9' > '10'
         'dt1': D(2020, 1, 1), 'dt2': D(2021, 6, 1, 12, 30), 'date1': datetime.date(2020, 1, 1),
         'np_i1': np.int64(1), 'np_f2.5': np.float64(2.5), 'np_dt2': np.datetime64('2021-06-01T12:30'), 'np_true': np.bool_(True),
         't_empty': (), 'l_empty': [], 'd_empty_a': {}, 'd_empty_b': {},
@@ -41,7 +41,7 @@ NANS = ['nan_a', 'nan_b', 'np_nan']
 NUM_EQUAL = [('i1', 'f1.0'), ('i1', 'np_i1'), ('f1.0', 'np_i1'), ('i0', 'f0.0'), ('f2.5', 'np_f2.5'), ('t_1_2', 't_1_2f')]
 SAME_VALUE = [('d_a1', 'd_a1_copy'), ('d_a1b2', 'd_b2a1'), ('dt2', 'np_dt2'), ('True', 'np_true'), ('d_empty_a', 'd_empty_b'),
               ('l_d_empty_a', 'l_d_empty_b'), ('d_mixedkeys_a', 'd_mixedkeys_b')]          # == holds natively for each pair
-NATIVE = [FINITE, ['s_', 's_a', 's_b', 's_x'], ['dt1', 'dt2']]
+NATIVE = [FINITE, ['s_', 's_a', 's_b', 's_x', 's_aa', 's_10', 's_9'], ['dt1', 'dt2']]
 
 
 def has_empty_dict(v):
@@ -346,7 +346,7 @@ def check_sort(c, vals, m, idx, names, xs_idx, kind):
     return ok
 
 
-SORT_SCALARS = ['None', 'i0', 'i1', 'i-3', 'f1.0', 'f2.5', 'f-1.5', 'nan_a', 'nan_b', 's_', 's_a', 's_b', 'dt1', 'dt2']
+SORT_SCALARS = ['None', 'i0', 'i1', 'i-3', 'f1.0', 'f2.5', 'f-1.5', 'nan_a', 'nan_b', 's_a', 's_aa', 's_b', 'dt1', 'dt2']
 SORT_SMALL = ['None', 'i1', 'f2.5', 'nan_a', 's_a', 'dt1']
 TUPLE_SCALARS_Q = ['None', 'i1', 'f1.0', 'nan_a', 's_a']
 TUPLE_SCALARS_T = ['None', 'i1', 'f1.0', 'f2.5', 'nan_a', 's_a', 'dt1']
